@@ -47,27 +47,90 @@ end
 
 /-- Is the SQL value the leaf compares NULL on this entity?  `nullBalance`: the per-asset
     balance is a scalar subquery (accounts) rather than a column of the row (volumes). -/
-def leafIsNull (nullBalance : Bool) (e : Entity) (_op : Query.Op) (key : String) (_v : Val) : Bool :=
+def leafIsNull (nullBalance : Bool) (e : Entity) (op : Query.Op) (key : String) (_v : Val) : Bool :=
   match splitKey key with
+  -- `metadata ->> 'k' IN (…)` (fix a07a144): NULL when the key is absent
+  | ("metadata", some k) => op == .in_ && (e.metadata.lookup k).isNone
   | ("balance", some a) => nullBalance && (e.balances.lookup a).isNone
+  | ("balance", none) => nullBalance && e.balances.isEmpty
   | ("reference", none) => (e.strs.lookup "reference").isNone
   | ("reverted_at", none) => (e.dates.lookup "reverted_at").isNone
   | _ => false
 
+/-- SQL `LIKE` (no escape character in the patterns used): `%` = any sequence, `_` = any one
+    character. -/
+def likeMatchF : Nat → List Char → List Char → Bool
+  | 0, _, _ => false
+  | _, [], [] => true
+  | fuel + 1, s, '%' :: p => likeMatchF fuel s p || (match s with | [] => false | _ :: s' => likeMatchF fuel s' ('%' :: p))
+  | _, [], _ :: _ => false
+  | _, _ :: _, [] => false
+  | fuel + 1, c :: s, q :: p => (q == '_' || q == c) && likeMatchF fuel s p
+
+def likeMatch (s p : String) : Bool := likeMatchF (2 * (s.length + p.length) + 2) s.toList p.toList
+
+/-- How `$in` on `metadata[k]` behaves:
+    `membership` — the documented meaning (`Query.leafSem`) and the code in the tree since fix
+    a07a144 (`metadata ->> 'k' IN (…)`): the value is one of the listed ones;
+    `containment` — the code before it: `metadata @> {"k": [v1, v2]}`, jsonb containment of an
+    array in a string value, which is never true. -/
+inductive MetaInVariant where
+  | containment
+  | membership
+  deriving DecidableEq, Repr, Inhabited
+
+/-- The variant of the code in the tree. -/
+def metaInCurrent : MetaInVariant := .membership
+
+/-- Leaf semantics of the rendered SQL where it is not `Query.leafSem`:
+    * `$like` on a plain string column (`reference`, log `type`) is SQL `LIKE`;
+    * `$in` on `metadata[k]` per `MetaInVariant`;
+    * the generic `balance` key on an accounts row compares the (single) balance row. -/
+def leafSemR (mv : MetaInVariant) (e : Entity) (op : Query.Op) (key : String) (v : Val) : Bool :=
+  match splitKey key, op, v with
+  | ("reference", none), .like, .sc (.str p) => (match e.strs.lookup "reference" with | some s => likeMatch s p | none => false)
+  | ("type", none), .like, .sc (.str p) => (match e.strs.lookup "type" with | some s => likeMatch s p | none => false)
+  | ("metadata", some _), .in_, _ => mv == .membership && leafSem parseRFC3339 e op key v
+  | ("balance", none), _, .sc (.int n) =>
+    (match e.nums.lookup "balance", e.balances with
+      | some b, _ => cmpInt op b n
+      | none, [(_, b)] => cmpInt op b n
+      | none, _ => false)
+  | _, _, _ => leafSem parseRFC3339 e op key v
+
+def sem3V (mv : MetaInVariant) (nullBalance : Bool) (e : Entity) (op : Query.Op) (key : String) (v : Val) : Option Bool :=
+  -- (the pre-fix containment on the coalesced metadata is never NULL)
+  if leafIsNull nullBalance e op key v && !(mv == .containment && (splitKey key).1 == "metadata") then none
+  else some (leafSemR mv e op key v)
+
 def sem3 (nullBalance : Bool) (e : Entity) (op : Query.Op) (key : String) (v : Val) : Option Bool :=
-  if leafIsNull nullBalance e op key v then none else some (leafSem parseRFC3339 e op key v)
+  sem3V metaInCurrent nullBalance e op key v
 
 /-- The row is selected: the filter is *true* (not false, not unknown). -/
-def selects (nullBalance : Bool) (f : Option Filter) (e : Entity) : Bool :=
+def selectsV (mv : MetaInVariant) (nullBalance : Bool) (f : Option Filter) (e : Entity) : Bool :=
   match f with
   | none => true
-  | some f => eval3 (sem3 nullBalance e) f == some true
+  | some f => eval3 (sem3V mv nullBalance e) f == some true
+
+def selects (nullBalance : Bool) (f : Option Filter) (e : Entity) : Bool := selectsV metaInCurrent nullBalance f e
 
 /-- `Filter.eval` would decide differently (an unknown leaf under a `$not`). -/
 def nullSensitive (nullBalance : Bool) (f : Option Filter) (e : Entity) : Bool :=
   match f with
   | none => false
-  | some f => selects nullBalance (some f) e != Filter.eval (leafSem parseRFC3339 e) f
+  | some f => selects nullBalance (some f) e != Filter.eval (leafSemR metaInCurrent e) f
+
+/-- Some leaf is `$in` on `metadata[k]`. -/
+def usesMetaIn (f : Option Filter) : Bool :=
+  match f with
+  | none => false
+  | some f => f.leaves.any fun l => l.1 == .in_ && (splitKey l.2.1).1 == "metadata" && (splitKey l.2.1).2.isSome
+
+/-- Some leaf is the generic (un-indexed) `balance` key. -/
+def usesGenericBalance (f : Option Filter) : Bool :=
+  match f with
+  | none => false
+  | some f => f.leaves.any fun l => l.2.1 == "balance"
 
 /-! ### entities -/
 
@@ -145,6 +208,11 @@ def accountsSelected (feat : Features) (l : Ledger) (pit : Option Int) (f : Opti
     Except RErr (List AccountView) := do
   validateFilter accountSchema f
   accountFilterCheck feat pit.isSome f
+  -- the generic `balance` key is a scalar subquery over the account's balance rows: Postgres
+  -- raises 21000 (more than one row returned by a subquery used as an expression) as soon as it
+  -- is evaluated on an account holding two assets
+  if usesGenericBalance f && (accountsAt feat l pit).any (fun v => (accountBalances l pit v.address).length ≥ 2) then
+    throw .cardinality
   pure ((accountsAt feat l pit).filter fun v => selects true f (accountEntity v (accountBalances l pit v.address)))
 
 def transactionsSelected (feat : Features) (l : Ledger) (pit : Option Int) (f : Option Filter) :
